@@ -132,6 +132,7 @@ def eval_case(arg):
                 st_del = copy.deepcopy(st_before)
                 if project.apply_edit(st_del, {"op": "delete_module_flat", "mod": rnd_m.choice(flat), "seed": 1}):
                     phases.append(("after-dependency-deleted", st_del))
+        prev_state = st_before
         for phase, state in phases:
             proj.sync(project.render(state), project.unlisted_paths(state))
             if phase == "after-revert":
@@ -155,10 +156,17 @@ def eval_case(arg):
                         else:
                             d = compare_unordered(r, cold)
                             if d:
+                                full = histrun.compare(r, cold)
+                                files_d = set(full[3]) if full and len(full) > 3 and full[3] else set()
+                                if d[2] and set(d[2]) <= {"has-type"} and files_d and files_d <= (histrun.cyclic_files(state) | histrun.cyclic_files(prev_state)):
+                                    # 'Cannot determine type of X' inside an import cycle depends on the order in which the
+                                    # cycle's modules are processed; a warm run re-processes only the stale ones (the C02 finding)
+                                    d = ("in-cycle-order-dependence",) + tuple(d[1:])
                                 res["problems"].append((name,) + d)
             finally:
                 mypyrun.rmtree(cold_dir)
                 mypyrun.rmtree(cseq2)
+            prev_state = state
         if res["problems"]:
             res["files"] = project.render(st)
     finally:
@@ -187,7 +195,7 @@ def judge(run: Run, res) -> None:
         run.nontriv(chash([res["seed"], res["n"], res["sched"]]))
     for where, klass, detail, codes in res["problems"]:
         case = {"seed": res["seed"], "nmods": res["nmods"], "n": res["n"], "sched": res["sched"], "store": res["store"], "st0": res["st0"], "ops": res["ops"]}
-        if klass in ("same-line-order", "advisory-note-placement"):
+        if klass in ("same-line-order", "advisory-note-placement", "in-cycle-order-dependence"):
             sg = klass
         elif klass == "crash":
             from vp.props.c20 import crash_signature
